@@ -81,7 +81,7 @@ impl Prop for C09 {
         "C09"
     }
     fn rule(&self) -> String {
-        "case = (degree 0..=8 uniform (the quartic has its own representation), coefficient vector with cancellation patterns, exponents up to ±30 (3/4) or ±200 (1/4), all ordinates (coefficients, knot.y) times a common power of two 2^k (k=0 in 70% of cases, else uniform in ±300); knot.x, a, b > 0 from {1, 1±k ulp, e^j, 2^±j, log-uniform in [1e-3,1e3], |x| in 2^±3, 1e±300, 7, 0.79, 1.2}; knot.y any). Oracle, independent of the library's recurrence and of libm: G(t) = t·Q(ln t) with Q_j = Σ_{i>=j} p_i (-1)^(i-j) i!/j! (exact) and ln in 384-bit arithmetic; checked through Evaluate::evaluate of the returned object: |F(knot.x)-knot.y| <= K·u·(|knot.y|+M(knot.x)) and |(F(b)-F(a)) - (G(b)-G(a))| <= K·u·(|knot.y|+M(knot.x)+M(a)+M(b)), the same for indefinite() with constant 0 (its additive constant must be exactly 0), K=160, M(t)=t·Σ_j Q̄_j|ln t|^j; degree 4: magnitudes of its own representation and factor 1e-12+K·u. Domain: all magnitudes within 2^±900. Non-trivial: degree>=1, >=2 non-zero coefficients, none of knot.x, a, b equal to 1.".into()
+        "case = (degree 0..=8 uniform (the quartic has its own representation), coefficient vector with cancellation patterns, exponents up to ±30 (3/4) or ±200 (1/4), all ordinates (coefficients, knot.y) times a common power of two 2^k (k=0 in 70% of cases, else uniform in ±300); knot.x, a, b > 0 from {1, 1±k ulp, e^j, 2^±j, log-uniform in [1e-3,1e3], |x| in 2^±3, 1e±300, 7, 0.79, 1.2}; knot.y any; in 30% of cases the three points are multiplied by one common power of two 2^k, k in ±300, so that all of them lie in the same tiny or huge regime). Oracle, independent of the library's recurrence and of libm: G(t) = t·Q(ln t) with Q_j = Σ_{i>=j} p_i (-1)^(i-j) i!/j! (exact) and ln in 384-bit arithmetic; checked through Evaluate::evaluate of the returned object: |F(knot.x)-knot.y| <= K·u·(|knot.y|+M(knot.x)) and |(F(b)-F(a)) - (G(b)-G(a))| <= K·u·(|knot.y|+M(knot.x)+M(a)+M(b)), the same for indefinite() with constant 0 (its additive constant must be exactly 0), K=160, M(t)=t·Σ_j Q̄_j|ln t|^j; degree 4: magnitudes of its own representation and factor 1e-12+K·u. Domain: all magnitudes within 2^±900. Non-trivial: degree>=1, >=2 non-zero coefficients, none of knot.x, a, b equal to 1.".into()
     }
     fn assumptions(&self) -> Vec<String> {
         vec!["K = 160 (DESIGN.md §4 C09) is the harness's reading of 'within the rounding bound of the construction'; measured worst ratio on the repaired tree is reported in DESIGN.md".into()]
@@ -90,9 +90,12 @@ impl Prop for C09 {
         tier.pick(200_000, 3_000_000)
     }
     fn strategy(&self, _tier: Tier) -> BoxedStrategy<Case> {
-        (0u8..9, any::<u8>(), point_strategy(), gen::moderate(40), point_strategy(), point_strategy(), gen::common_scale(300))
-            .prop_flat_map(|(deg, wide, kx, ky, a, b, sc)| {
+        (0u8..9, any::<u8>(), point_strategy(), gen::moderate(40), point_strategy(), point_strategy(), gen::common_scale(300), gen::common_scale(300))
+            .prop_flat_map(|(deg, wide, kx, ky, a, b, sc, xsc)| {
                 let emax = if wide % 4 == 0 { 200 } else { 30 };
+                // all three points in one regime (everything tiny / everything huge): t -> t·2^k
+                let ok = |t: f64| (t * xsc).is_finite() && t * xsc > 1e-300;
+                let (kx, a, b) = if ok(kx) && ok(a) && ok(b) { (kx * xsc, a * xsc, b * xsc) } else { (kx, a, b) };
                 gen::coeffs(deg as usize + 1, emax).prop_map(move |p| Case { deg, p: p.into_iter().map(|v| B(v * sc)).collect(), kx: B(kx), ky: B(ky * sc), a: B(a), b: B(b) })
             })
             .boxed()
